@@ -26,15 +26,15 @@ from props import own_common
 # expected to hold while the transaction holds half-applied state (that is what poisoning is for)
 HALF_OK = ("O1-working", "O2/O3-pin", "O2-durable-data-covered", "O2-durable-system-covered", "latest-in-working")
 
-QUICK = {"A": (600, 24), "B": (40, 12)}
-THOROUGH = {"A": (9000, 30), "B": (150, 0)}
+QUICK = {"A": (500, 24), "B": (40, 12)}
+THOROUGH = {"A": (6000, 30), "B": (100, 0)}
 
 
 def _filter_half(s3fail):
     out = []
     for label, what in s3fail:
         if "!half" in label:
-            conj = what.split(":", 1)[1].split(",") if ":" in what else [what]
+            conj = re.split(r",(?![^()]*\))", what.split(":", 1)[1]) if ":" in what else [what]
             if all(any(c.startswith(p) for p in HALF_OK) for c in conj):
                 continue
         out.append((label, what))
@@ -141,8 +141,12 @@ def _mode_a(ctx, n, steps, extra=()):
             res["model_s3"].append((label, s3, _block(ctx, "c05_cases.txt", label)))
         if flags != "ok" or end != "ok":
             res["flags_bad"].append((label, "FLAGS=%s END=%s" % (flags, end)))
-    res["flag_calls"] = sum(1 for l in open(os.path.join(ctx.workdir, "c05_cases.txt")) if l.startswith("C "))
-    res["cases_head"] = [l[:500] for l in open(os.path.join(ctx.workdir, "c05_cases.txt")).read().split("\n")[:14]]
+    res["flag_calls"], res["cases_head"] = 0, []
+    for i, l in enumerate(open(os.path.join(ctx.workdir, "c05_cases.txt"))):
+        if l.startswith("C "):
+            res["flag_calls"] += 1
+        if i < 14:
+            res["cases_head"].append(l.rstrip("\n")[:500])
     return res
 
 
@@ -151,7 +155,7 @@ def _report_a(ctx, n, steps, res):
     for label, s3, block in res["model_s3"]:
         m = re.match(r"h(\d+)\.r(\d+)", label)
         h = int(m.group(1)) if m else None
-        key = "c05-abandoned-state-%s" % re.sub(r"[^A-Za-z,:]+", "", s3)[:40]
+        key = "c05-abandoned-state-differs"
         if key in seen:
             continue
         seen.add(key)
@@ -162,6 +166,17 @@ def _report_a(ctx, n, steps, res):
                       {"harness": "c05", "mode": "A", "histories": n, "steps": steps, "history": h, "round": label,
                        "case_block": block, "api_calls": own_common._history_log(ctx, "c05", n, steps, h) if h is not None else [],
                        "replay_cmd": "VERIF_SEED=%d ./check C05 --replay <this file>" % ctx.seed})
+    # the property's own oracles first; at most a dozen distinct direct failures are written up (every one
+    # costs a re-run of its history for the API-call log)
+    rust, keys = [], set()
+    for v in sorted(res["rust"], key=lambda v: (0 if "C05:" in v else 1)):
+        kind = re.sub(r"[0-9]+", "N", re.sub(r"^h\d+( s\d+)?( after `[^`]*`)?: ", "", v))[:50]
+        if kind not in keys and len(keys) < 12:
+            keys.add(kind)
+            rust.append(v)
+    res = dict(res)
+    res["rust"] = rust
+    res["s3fail"] = res["s3fail"][:50]
     own_common._report(ctx, "C05", "c05", n, steps, res)
 
 
